@@ -4,7 +4,7 @@ each custom __adapt__), for `I(obj[, alternate])` and for `I.__adapt__(obj)`.
 
 Log entries: ["g"] obj.__conform__ read, ["c"] conform(I) called, ["p"] obj.__providedBy__ read
 (the provided-check), ["h", i] adapter_hooks[i] called, ["a", level] custom __adapt__ of chain
-level called.  Outcomes: ["val", v] | ["obj"] | ["alt"] | ["none"] | ["exc", kind, tag] | ["cna"]
+level called, ["P", level] providedBy override of chain level called.  Outcomes: ["val", v] | ["obj"] | ["alt"] | ["none"] | ["exc", kind, tag] | ["cna"]
 (TypeError('Could not adapt', obj, I)) | ["unknown", text].
 """
 import functools
@@ -60,7 +60,11 @@ class Ctx:
 
 
 def make_level(base, i, lv, ctx):
+    """One chain level.  plain = False: ``class I_i(base)`` with @interfacemethod definitions;
+    plain = True: ``class IC_i(type(base))`` (a plain subclass of the interface class so far)
+    defining the same methods as ordinary methods, then ``IC_i('I_i', (base,), {})``."""
     ad = lv["adapt"]
+    pv = lv.get("prov")
     other = lv["other"]
 
     def enter(self, obj):
@@ -68,34 +72,108 @@ def make_level(base, i, lv, ctx):
         if obj is not ctx.obj or self is not ctx.I:
             ctx.ok = False
 
-    # three class statements: a body that mentions super() gets a __classcell__, which
-    # InterfaceClass only accepts together with interfacemethods
-    if ad is not None and ad[0] == "delegate":
+    def enter_prov(self, obj):
+        ctx.log.append(["P", i])
+        if obj is not ctx.obj or self is not ctx.I:
+            ctx.ok = False
+
+    def adapt_plain(self, obj):
+        enter(self, obj)
+        if ad[0] == "none":
+            return None
+        if ad[0] == "value":
+            return ctx.val(ad[1])
+        raise ctx.exc(ad[1], ad[2])
+
+    def prov_plain(self, obj):
+        enter_prov(self, obj)
+        if pv[0] == "true":
+            return True
+        if pv[0] == "false":
+            return False
+        raise ctx.exc(pv[1], pv[2])
+
+    ad_del = ad is not None and ad[0] == "delegate"
+    pv_del = pv is not None and pv[0] == "delegate"
+
+    if lv.get("plain"):
+        holder = []     # the class, for the explicit super(IC, self) of the delegating methods
+        ns = {}
+        if ad_del:
+            def __adapt__(self, obj):
+                enter(self, obj)
+                return super(holder[0], self).__adapt__(obj)
+            ns["__adapt__"] = __adapt__
+        elif ad is not None:
+            ns["__adapt__"] = adapt_plain
+        if pv_del:
+            def providedBy(self, obj):
+                enter_prov(self, obj)
+                return super(holder[0], self).providedBy(obj)
+            ns["providedBy"] = providedBy
+        elif pv is not None:
+            ns["providedBy"] = prov_plain
+        if other:
+            ns["extra_method"] = lambda self: i
+        IC = type("IC%d" % i, (type(base),), ns)
+        holder.append(IC)
+        return IC("I%d" % i, (base,), {})
+
+    # class statements: a body that mentions super() gets a __classcell__, which InterfaceClass
+    # only accepts together with interfacemethods
+    if ad_del and pv_del:
         class IX(base):
             @interfacemethod
             def __adapt__(self, obj):
                 enter(self, obj)
                 return super().__adapt__(obj)
+
+            @interfacemethod
+            def providedBy(self, obj):
+                enter_prov(self, obj)
+                return super().providedBy(obj)
             if other:
                 @interfacemethod
                 def extra_method(self):
                     return i
-    elif ad is not None:
+    elif ad_del:
         class IX(base):
             @interfacemethod
             def __adapt__(self, obj):
                 enter(self, obj)
-                if ad[0] == "none":
-                    return None
-                if ad[0] == "value":
-                    return ctx.val(ad[1])
-                raise ctx.exc(ad[1], ad[2])
+                return super().__adapt__(obj)
+            if pv is not None:
+                @interfacemethod
+                def providedBy(self, obj):
+                    return prov_plain(self, obj)
+            if other:
+                @interfacemethod
+                def extra_method(self):
+                    return i
+    elif pv_del:
+        class IX(base):
+            @interfacemethod
+            def providedBy(self, obj):
+                enter_prov(self, obj)
+                return super().providedBy(obj)
+            if ad is not None:
+                @interfacemethod
+                def __adapt__(self, obj):
+                    return adapt_plain(self, obj)
             if other:
                 @interfacemethod
                 def extra_method(self):
                     return i
     else:
         class IX(base):
+            if ad is not None:
+                @interfacemethod
+                def __adapt__(self, obj):
+                    return adapt_plain(self, obj)
+            if pv is not None:
+                @interfacemethod
+                def providedBy(self, obj):
+                    return prov_plain(self, obj)
             if other:
                 @interfacemethod
                 def extra_method(self):
